@@ -137,6 +137,41 @@ def precond_agree(env, n, cls):
         env.le('x_%s solves the system to the tolerance' % (prec or 'none'), r2, (10 * tolv) ** 2 * cm.frob2(env, b), abs_slack=1e-30)
 
 
+def precond_system(env, n, kind='real'):
+    """left LU preconditioning turns A x = b into an equivalent system: with b := A x0 for a symbolic x0,
+    the matrix and right-hand side handed to the Krylov kernel satisfy A~ x0 = b~ on every pivot path
+    (the same M^-1 = U^-1 L^-1 P must be applied to both)"""
+    Sv = env.R.solver
+    A = env.qarr('a', (n, n), kind)
+    x0 = env.qarr('x', (n, 1), kind)
+    b = cm.qmat_from_nested(env, cm.matmul_oracle(env, A, x0))
+    if not env.symbolic:
+        solver = Sv.QGMRESSolver(preconditioner='left_lu')
+        x, info = solver.solve(A, b)
+        if info['converged']:
+            env.eq('left_lu: a converged run returns the solution of the ORIGINAL system', cm.as_nested(env, x), cm.as_nested(env, x0), tol=1e-6)
+        return
+    seen = []
+    solver = Sv.QGMRESSolver(preconditioner='left_lu')
+
+    def rec(A0, A1, A2, A3, b0, b1, b2, b3, tol, maxit):
+        seen.append(((A0, A1, A2, A3), (b0, b1, b2, b3)))
+        z = env.np.zeros((n, 1))
+        return z, z, z, z, 0.0, z, z, z, z, 1, []
+    solver._GMRESQsparse = rec
+    solver.solve(env.twist(A), b)
+    (A0, A1, A2, A3), (b0, b1, b2, b3) = seen[0]
+    At = [[[A0[i, j], A1[i, j], A2[i, j], A3[i, j]] for j in range(n)] for i in range(n)]
+    bt = [[[b0[i, 0], b1[i, 0], b2[i, 0], b3[i, 0]]] for i in range(n)]
+    from .c07 import cm_matmul_nested
+    lhs = cm_matmul_nested(At, cm.as_nested(env, x0))
+    # exact up to the 1e-30 regulariser of the triangular solves: compare after clearing it is not possible
+    # in general, so the clause is stated on the residual relative to b~ (1e-12 relative, far above 1e-30/|d|^2)
+    r2 = sum(((u - v) * (u - v) for ru, rv in zip(lhs, bt) for eu, ev in zip(ru, rv) for u, v in zip(eu, ev)), 0)
+    b2 = sum((v * v for rv in bt for ev in rv for v in ev), 0)
+    env.le('preconditioned system is equivalent: ||A~ x0 - b~||^2 <= 1e-24 ||b~||^2', r2, Fraction(1, 10 ** 24) * b2)
+
+
 META = {
     'explanation': 'bounded symbolic execution of QGMRESSolver.solve / _GMRESQsparse with its kernels (timesQsparse, normQsparse, Hess_QR_ggivens, '
                    'ggivens, GRSGivens, A2A0123, UtriangleQsparse, absQsparse, dotinvQsparse) and the LU preconditioner path; the internal fault paths '
@@ -182,6 +217,9 @@ def cells():
     for n, cls in [(1, 'full'), (2, 'identity'), (2, 'real')]:
         out.append(Cell('zero_rhs[n=%d,%s]' % (n, cls), 'c04:gmres_zero_rhs', dict(n=n, cls=cls), domain='a', timeout_s=600, twin=False,
                         events='violation', bounds='b = 0'))
+    for n, tier in [(2, 'quick'), (3, 'quick')]:
+        out.append(Cell('precond_system[n=%d,real]' % n, 'c04:precond_system', dict(n=n, kind='real'), tier=tier, twin=False, events='outside',
+                        bounds='A, x0 real-axis symbolic, all pivot paths of the LU preconditioner; Krylov kernel replaced by a recorder', **big))
     for n, cls, tier in [(1, 'complex', 'quick'), (2, 'identity', 'quick'), (2, 'upper', 'thorough'), (2, 'real', 'thorough')]:
         out.append(Cell('precond_agree[n=%d,%s]' % (n, cls), 'c04:precond_agree', dict(n=n, cls=cls), tier=tier, twin=False,
                         bounds='both preconditioner settings on the same symbolic system', **big))
